@@ -136,8 +136,7 @@ def applyCoerce (o : Oracle) (target dest : Ty) (cls : ClassId) (c : CoerceK) (x
     match x with
     | .inst _ doid c' names vals =>
       if c' = cls then
-        (if cls.kind == 2 then .acc (instDict 0 names vals) []
-         else if cls.slots then .exn .attributeError []
+        (if cls.kind == 2 || cls.slots then .acc (instDict 0 names vals) []
          else .acc (instDict doid names vals) [])
       else .rej (.coercion [.cls cls] dest) []
     | _ => .rej (.coercion [.cls cls] dest) []
@@ -299,18 +298,16 @@ def runObjCheck (oc : Option ObjCheck) (vid : Nat) (obj : PyVal) : Out × List E
     | none => (.valid obj, [.oc c.id])
     | some e => (.invalid (.mk (.custom e) obj vid []), [.oc c.id])
 
-def ntupleStep (o : Oracle) (m : Mode) (vid : Nat) (oc : Option ObjCheck) (c : Option CoerceK)
+def ntupleStep (o : Oracle) (vid : Nat) (oc : Option ObjCheck) (c : Option CoerceK)
     (lenPid : Nat) (evs : List Ev1) (x : PyVal) : Res :=
   match gate o .tuple .list c x with
   | .exn e t => some (.raised e, t)
   | .rej ek t => some (.invalid (.mk ek x vid []), t)
   | .acc y t =>
-    -- the async copy applies the arity predicate to, and reports, the *raw* value
-    let lenSubject := if m = .async then x else y
-    match pyLen lenSubject with
+    match pyLen y with
     | none => some (.raised .typeError, t)
     | some n =>
-      if n ≠ evs.length then some (.invalid (.mk (.preds [lenPid]) lenSubject vid []), t)
+      if n ≠ evs.length then some (.invalid (.mk (.preds [lenPid]) y vid []), t)
       else
         match pyIter y with
         | none => some (.raised .typeError, t)
@@ -453,8 +450,7 @@ def recGate (o : Oracle) (cfg : RecCfg) (x : PyVal) : Gate :=
         match x with
         | .inst _ doid c' names vals =>
           if c' = cfg.cls then
-            (if cfg.kind = .namedtuple then .acc (instDict 0 names vals) []
-             else if cfg.cls.slots then .exn .attributeError []
+            (if cfg.kind = .namedtuple || cfg.cls.slots then .acc (instDict 0 names vals) []
              else .acc (instDict doid names vals) [])
           else .rej (.coercion [.dict, .cls cfg.cls] (.cls cfg.cls)) []
         | _ => .rej (.coercion [.dict, .cls cfg.cls] (.cls cfg.cls)) []
@@ -494,9 +490,7 @@ def recordStep (o : Oracle) (m : Mode) (vid : Nat) (cfg : RecCfg) (evs : List Ev
       | none => some (.raised .typeError, t)
       | some data =>
         if cfg.failUnknown && hasUnknownKey cfg.keys data then
-          -- TypedDictValidator's async copy reports the raw input here
-          let held := if cfg.kind = .typeddict ∧ m = .async then x else y
-          some (.invalid (.mk (.extraKeys cfg.keys) held vid []), t)
+          some (.invalid (.mk (.extraKeys cfg.keys) y vid []), t)
         else
           match recLoop vid y data evs cfg.keys cfg.reqs with
           | none => none
@@ -580,7 +574,7 @@ def run (o : Oracle) (env : Nat → V) (m : Mode) : Nat → V → PyVal → Res
     | .list vid item ps aps c => seqStep .list o m vid ps aps c (run o env m n item) x
     | .set vid item ps aps c => seqStep .set o m vid ps aps c (run o env m n item) x
     | .utuple vid item ps aps c => seqStep .utuple o m vid ps aps c (run o env m n item) x
-    | .ntuple vid fs oc c lp => ntupleStep o m vid oc c lp (fs.map (run o env m n)) x
+    | .ntuple vid fs oc c lp => ntupleStep o vid oc c lp (fs.map (run o env m n)) x
     | .map vid kv vv ps aps c => mapStep o m vid ps aps c (run o env m n kv) (run o env m n vv) x
     | .record vid cfg vs => recordStep o m vid cfg (vs.map (run o env m n)) x
     | .union vid vs => unionStep vid (vs.map (run o env m n)) x
